@@ -236,3 +236,47 @@ Print Assumptions C05_solenoid_dk_at0_refuted.
 Print Assumptions C05_cavity_grad_at_V0_refuted.
 Print Assumptions C05_cavity_grad_on_defined.
 Print Assumptions C05_ex_limit_value.
+
+(** * finding F64: the value the derivative of the dispersion entries R16 = R52 w.r.t. the bending angle takes at angle = 0,
+      k1 = 0 in the program as written (k1 guard 1e-12), in exact arithmetic and with the float64 cosine; the band that the
+      harness accepts as F64 and nothing wider (Optics/DerivF64.v) *)
+From Cheetah Require Import Optics.DerivF64.
+(* the guarded program is differentiable there; its derivative is the closed form at k1 = 1e-12, hx = 0 *)
+Theorem C05_F64_guarded_derivative : forall L E, L <> 0 ->
+  m7_derive (fun a => base_untilted L 0 (a / L) E) 0 (rmscale (/ L) (dsbend_dhx L 1e-12 0 E)).
+Proof. exact sbend_dangle_guard_at0. Qed.
+Theorem C05_F64_dispersion_entries : forall L E,
+  m7nth (dsbend_dhx L 1e-12 0 E) 0 5 = (1 - cos (1e-6 * L)) / 1e-12 / beta_of E /\
+  m7nth (dsbend_dhx L 1e-12 0 E) 4 1 = (1 - cos (1e-6 * L)) / 1e-12 / beta_of E /\
+  m7nth (dsbend_dhx L 1e-12 0 E) 1 5 = sin (1e-6 * L) / 1e-6 / beta_of E /\
+  m7nth (dsbend_dhx L 1e-12 0 E) 4 0 = sin (1e-6 * L) / 1e-6 / beta_of E /\
+  m7nth (dsbend_dhx L 1e-12 0 E) 4 5 = 0 /\ m7nth (dsbend_dhx L 1e-12 0 E) 0 0 = 0 /\ m7nth (dsbend_dhx L 1e-12 0 E) 0 1 = 0.
+Proof. exact dsbend_dhx_guard_disp. Qed.
+(* exact arithmetic: the guard costs at most 1e-12 L^4 / 24 *)
+Theorem C05_F64_exact_arithmetic : forall L, 0 <= L ->
+  0 <= L * L / 2 - (1 - cos (1e-6 * L)) / 1e-12 <= 1e-12 * (L * L * L * L) / 24.
+Proof. exact disp_guard_bound. Qed.
+(* float effect: a cosine stored with absolute error eta moves the quotient by eta / 1e-12 *)
+Theorem C05_F64_float_effect : forall L eta, 0 <= L ->
+  Rabs ((1 - (cos (1e-6 * L) + eta)) / 1e-12 - L * L / 2) <= 1e-12 * (L * L * L * L) / 24 + Rabs eta / 1e-12.
+Proof. exact disp_float_bound. Qed.
+Theorem C05_F64_relative_band : forall L eta, 0 < L -> Rabs eta <= / 2 ^ 51 ->
+  Rabs ((1 - (cos (1e-6 * L) + eta)) / 1e-12 / (L * L / 2) - 1) <= 1e-12 * (L * L) / 12 + / 2 ^ 50 / 1e-12 / (L * L).
+Proof. exact disp_float_rel. Qed.
+(* what the harness checks for an observed d R16 / d angle, and what it implies *)
+Theorem C05_F64_observation_band : forall L E obs, 0 < L -> 0 < beta_of E ->
+  Rabs (1 - cos (1e-6 * L) - obs * L * beta_of E * 1e-12) <= / 2 ^ 51 ->
+  Rabs (obs - L / 2 / beta_of E) <= (1e-12 * (L * L * L * L) / 24 + / 2 ^ 51 / 1e-12) / (L * beta_of E).
+Proof. exact f64_observation_band. Qed.
+(* a derivative that lost the dispersion term altogether (observation 0) is outside the band for 0.05 <= L <= 100 *)
+Theorem C05_F64_zero_is_outside_band : forall L E, 0.05 <= L <= 100 ->
+  / 2 ^ 51 < Rabs (1 - cos (1e-6 * L) - 0 * L * beta_of E * 1e-12).
+Proof. exact f64_zero_observation_outside_band. Qed.
+
+Print Assumptions C05_F64_guarded_derivative.
+Print Assumptions C05_F64_dispersion_entries.
+Print Assumptions C05_F64_exact_arithmetic.
+Print Assumptions C05_F64_float_effect.
+Print Assumptions C05_F64_relative_band.
+Print Assumptions C05_F64_observation_band.
+Print Assumptions C05_F64_zero_is_outside_band.
